@@ -12,15 +12,15 @@ Section Generic.
   Context {T : Type} {NT : Num T}.
   Variables (f f' : T -> res T) (tol : T) (cap : nat).
 
-  Definition nr_err1 (s : nstate T) (x : T) : T :=
-    if nneb x n0 then nmul (ndiv (nabs (nsub x (ns_x s))) x) c100 else ns_err s.
+  Definition nr_err1 (s : nstate T) (x : T) : option T :=
+    if nneb x n0 then Some (nmul (ndiv (nabs (nsub x (ns_x s))) x) c100) else None.
 
   Lemma nr_body_ok s s' b : nr_body f f' tol cap s = Ok (s', b) ->
     exists v d, f (ns_x s) = Ok v /\ f' (ns_x s) = Ok d /\
       ns_x s' = nsub (ns_x s) (ndiv v d) /\ ns_old s' = ns_x s /\ ns_iter s' = S (ns_iter s) /\
-      b = (nltb (nabs (ns_err s')) tol || Nat.leb cap (S (ns_iter s))) /\
+      b = (err_small (ns_err s') tol || Nat.leb cap (S (ns_iter s))) /\
       ( (nfinite (ns_x s') = true /\ exists vx, f (ns_x s') = Ok vx /\
-           ns_err s' = if neqb vx n0 then n0 else nr_err1 s (ns_x s'))
+           ns_err s' = if neqb vx n0 then Some n0 else nr_err1 s (ns_x s'))
      \/ (nfinite (ns_x s') = false /\ ns_err s' = nr_err1 s (ns_x s')) ).
   Proof.
     unfold nr_body.
@@ -168,10 +168,10 @@ Proof. unfold nfinite. cbn [neqb nsub n0 RNum]. apply Reqb_true. ring. Qed.
 Lemma nr_body_R (f f' : R -> res R) tol cap s s' b : nr_body f f' tol cap s = Ok (s', b) ->
   exists v d vx, f (ns_x s) = Ok v /\ f' (ns_x s) = Ok d /\ f (ns_x s') = Ok vx /\
     ns_x s' = ns_x s - v / d /\ ns_old s' = ns_x s /\ ns_iter s' = S (ns_iter s) /\
-    b = (Rltb (Rabs (ns_err s')) tol || Nat.leb cap (S (ns_iter s))) /\
-    ( (vx = 0 /\ ns_err s' = 0)
-   \/ (vx <> 0 /\ ns_x s' <> 0 /\ ns_err s' = Rabs (ns_x s' - ns_x s) / ns_x s' * 100)
-   \/ (vx <> 0 /\ ns_x s' = 0 /\ ns_err s' = ns_err s) ).
+    b = (err_small (ns_err s') tol || Nat.leb cap (S (ns_iter s))) /\
+    ( (vx = 0 /\ ns_err s' = Some 0)
+   \/ (vx <> 0 /\ ns_x s' <> 0 /\ ns_err s' = Some (Rabs (ns_x s' - ns_x s) / ns_x s' * 100))
+   \/ (vx <> 0 /\ ns_x s' = 0 /\ ns_err s' = None) ).
 Proof.
   intro H. apply nr_body_ok in H.
   destruct H as (v & d & Hv & Hd & Hx & Ho & Hi & Hb & [(_ & vx & Hvx & He)|(Hf & _)]).
@@ -187,36 +187,27 @@ Proof.
     + apply Reqb_false in E1. left. tauto.
 Qed.
 
-(* loop-head invariant: the carried error is not below the tolerance *)
-Definition Jerr (tol : R) (s : nstate R) : Prop := tol <= Rabs (ns_err s).
-
-Lemma Jerr_step (f f' : R -> res R) tol cap s s' :
-  nr_body f f' tol cap s = Ok (s', false) -> Jerr tol s'.
-Proof.
-  intro H. apply nr_body_R in H. destruct H as (v & d & vx & _ & _ & _ & _ & _ & _ & Hb & _).
-  symmetry in Hb. apply orb_false_elim in Hb. destruct Hb as [Hb _].
-  apply Rltb_false in Hb. exact Hb.
-Qed.
-
+(* what an Ok gives.  As of 8dfb6bc an iterate 0 that is no root carries the error INFINITY,
+   so no hypothesis on the tolerance is needed any more. *)
 Lemma c07_sound : forall (f f' : R -> res R) x0 cap tol x,
-  tol <= 100 -> nrm f f' x0 cap tol = Ok x ->
+  nrm f f' x0 cap tol = Ok x ->
   exists x' v d, f x' = Ok v /\ f' x' = Ok d /\ x = x' - v / d /\
     (f x = Ok 0 \/ (x <> 0 /\ Rabs (x - x') * 100 < tol * Rabs x)).
 Proof.
-  intros f f' x0 cap tol x Htol. unfold nrm.
+  intros f f' x0 cap tol x. unfold nrm.
   destruct (nr_loop f f' tol cap cap (nr_start x0)) as [r|e|w] eqn:El; cbn [bind]; try discriminate.
   destruct (Nat.leb cap (ns_iter r)) eqn:Ec; [discriminate|].
   intro H. injection H as <-.
-  destruct (nr_loop_last f f' tol cap (Jerr tol)) with (fuel := cap) (s := nr_start x0) (r := r) as (s0 & J0 & Hb).
-  - intros s s' _ Hb. exact (Jerr_step f f' tol cap s s' Hb).
-  - unfold Jerr, nr_start. cbn [ns_err]. rewrite c100_R. rewrite Rabs_pos_eq; lra.
+  destruct (nr_loop_last f f' tol cap (fun _ => True)) with (fuel := cap) (s := nr_start x0) (r := r) as (s0 & _ & Hb).
+  - intros; exact I.
+  - exact I.
   - exact El.
   - apply nr_body_R in Hb. destruct Hb as (v & d & vx & Hv & Hd & Hvx & Hx & _ & Hi & Hb & Hcase).
     exists (ns_x s0), v, d. repeat (split; [assumption|]).
-    rewrite <- Hi, Ec, orb_false_r in Hb. symmetry in Hb. apply Rltb_true in Hb.
+    rewrite <- Hi, Ec, orb_false_r in Hb. symmetry in Hb.
     destruct Hcase as [(Z & _)|[(_ & Nz & He)|(_ & _ & He)]].
     + left. rewrite Hvx, Z. reflexivity.
-    + right. split; [exact Nz|]. rewrite He in Hb.
+    + right. split; [exact Nz|]. rewrite He in Hb. cbn [err_small nltb nabs RNum] in Hb. apply Rltb_true in Hb.
       assert (Hp : 0 < Rabs (ns_x r)) by (apply Rabs_pos_lt; exact Nz).
       unfold Rdiv in Hb. rewrite !Rabs_mult, Rabs_Rabsolu, Rabs_inv in Hb.
       rewrite (Rabs_pos_eq 100) in Hb by lra.
@@ -224,7 +215,7 @@ Proof.
       replace (Rabs (ns_x r - ns_x s0) * / Rabs (ns_x r) * 100 * Rabs (ns_x r))
         with (Rabs (ns_x r - ns_x s0) * 100) in Hb by (field; lra).
       exact Hb.
-    + exfalso. rewrite He in Hb. unfold Jerr in J0. lra.
+    + exfalso. rewrite He in Hb. discriminate.
 Qed.
 
 (* ------------------------------------------------------------------------- *)
@@ -286,7 +277,7 @@ Proof.
 Qed.
 
 Lemma c07_sound_simple : forall (p : spoly R) x0 cap tol mode x,
-  tol <= 100 -> s_nrm p x0 cap tol mode = Ok x ->
+  s_nrm p x0 cap tol mode = Ok x ->
   let g := eval_simple (s_target p mode) in
   let g1 := eval_simple (sd (s_target p mode)) in
   let g2 := eval_simple (sd (sd (s_target p mode))) in
@@ -297,12 +288,12 @@ Lemma c07_sound_simple : forall (p : spoly R) x0 cap tol mode x,
        (forall M, (forall t, Rmin x' x <= t <= Rmax x' x -> Rabs (g2 t) <= M) ->
           g x = 0 \/ Rabs (g x) <= M / 2 * (tol / 100 * Rabs x) ^ 2)).
 Proof.
-  intros p x0 cap tol mode x Htol H g g1 g2.
+  intros p x0 cap tol mode x H g g1 g2.
   apply nrm_poly_inv in H. destruct H as (q & dq & Hq & Hdq & H).
   assert (Eq : q = s_target p mode).
   { destruct mode; cbn [target s_derivate_univariate s_target] in *; injection Hq as <-; reflexivity. }
   subst q. unfold s_derivate_univariate in Hdq. injection Hdq as <-.
-  apply c07_sound in H; [|exact Htol].
+  apply c07_sound in H.
   destruct H as (x' & v & d & Hv & Hd & Hx & Hex).
   unfold s_eval_univariate in Hv, Hd. injection Hv as <-. injection Hd as <-.
   fold g in Hx, Hex. fold (sd (s_target p mode)) in Hx. fold g1 in Hx.
@@ -363,8 +354,9 @@ Proof.
   { unfold nr_body. rewrite Ev, Ed. cbn [bind]. change (nsub (ns_x s) (ndiv v d)) with x1.
     rewrite nfinite_R, Hvx. cbn [bind]. eexists. eexists. split; [reflexivity|].
     cbn [ns_x ns_iter ns_err]. repeat split.
-    intro Z. subst vx. cbn [neqb n0 nltb nabs RNum].
+    intro Z. subst vx. cbn [neqb n0 RNum].
     replace (Reqb 0 0) with true by (symmetry; apply Reqb_true; reflexivity).
+    cbn [err_small nltb nabs RNum].
     rewrite Rabs_R0. replace (Rltb 0 tol) with true by (symmetry; apply Rltb_true; exact Htol).
     reflexivity. }
   destruct Hbody as (s' & b & Hb & Hx' & Hi' & Hz).
@@ -494,25 +486,22 @@ Proof.
 Qed.
 
 (* ------------------------------------------------------------------------- *)
-(* the hypothesis tol <= 100 of c07_sound is needed (finding F-C07-STALE-100): *)
-(* x^2 + 1 from 1 with tol = 200 returns Ok 0 although g 0 = 1                *)
+(* regression of finding F-C07-STALE-100 (repaired by 8dfb6bc): x^2 + 1 from 1 *)
+(* with tol = 200.  The first iterate is 0 and no root; its relative change is *)
+(* now INFINITY, so the loop does not stop there (before the repair: Ok 0).    *)
 (* ------------------------------------------------------------------------- *)
-Lemma nr_loop_break {T} {NT : Num T} (f f' : T -> res T) tol cap fuel s s' :
-  nr_body f f' tol cap s = Ok (s', true) -> nr_loop f f' tol cap fuel s = Ok s'.
-Proof. intro H. destruct fuel; cbn [nr_loop]; rewrite H; reflexivity. Qed.
-
-Lemma c07_tol_above_100_counterexample :
-  nrm (fun x => Ok (x * x + 1)) (fun x => Ok (2 * x)) 1 100 200 = Ok 0.
+Lemma c07_stale_100_repaired :
+  exists s', nr_body (fun x => Ok (x * x + 1)) (fun x => Ok (2 * x)) 200 100 (nr_start 1) = Ok (s', false) /\
+             ns_x s' = 0 /\ ns_err s' = None.
 Proof.
-  unfold nrm.
-  rewrite (nr_loop_break _ _ 200 100%nat 100%nat (nr_start 1)
-             {| ns_iter := 1; ns_x := 0; ns_old := 1; ns_err := 100 |}).
-  - reflexivity.
+  eexists. split.
   - unfold nr_body, nr_start, nfinite, nneb.
     cbn [ns_x ns_iter ns_err bind nsub ndiv nmul nabs neqb nltb n0 RNum].
     replace (1 - (1 * 1 + 1) / (2 * 1)) with 0 by field.
-    rewrite c100_R. rbool. cbn [negb bind].
-    replace (Rabs 100) with 100 by (symmetry; apply Rabs_pos_eq; lra).
-    rbool. reflexivity.
+    replace (Reqb (0 - 0) 0) with true by (symmetry; apply Reqb_true; lra).
+    cbn [bind].
+    replace (Reqb (0 * 0 + 1) 0) with false by (symmetry; apply Reqb_false; lra).
+    replace (Reqb 0 0) with true by (symmetry; apply Reqb_true; reflexivity).
+    cbn [negb err_small orb]. reflexivity.
+  - split; reflexivity.
 Qed.
-
